@@ -23,4 +23,4 @@ def check(ctx, rep):
     K.rule_rejection(fm, rep)
     K.rule_plain_forms(fm, rep)
     K.rule_client_immutable(fm, rep)
-    K.rule_nonempty(fm, rep, 'R5b')
+    K.rule_nonempty(fm, rep, 'R5b', check_kind=True)      # C03 names the kind of the rejection: invalid input
